@@ -228,11 +228,12 @@ def walk(rng, n, f, tag):
                 ps = [(11, 9999)]
             inbound_pid += 1
             pid = rng.choice([inbound_pid, 100, 101]) if f.get("redeliver") else inbound_pid
-            s.deliver(M.publish(b"top", b"m%d" % len(s.evs), q, pid if q else None, dup=rng.choice([0, 0, 1]),
-                                ps=ps))
+            s.deliver(M.publish(b"top", b"" if rng.random() < 0.15 else b"m%d" % len(s.evs), q, pid if q else None,
+                                dup=rng.choice([0, 0, 1]), ps=ps))
             s.tags.add("inpub%d" % q)
         elif a == "inrel" and not hold:
-            s.deliver(M.pubrel(rng.choice([100, 101, inbound_pid])))
+            s.deliver(M.pubrel(rng.choice([100, 101, inbound_pid]), *rng.choice([(0, (), "auto"), (146, (), "short3"), (0, (), "short3"),
+                                                                                  (146, [(31, b"gone")], "long")])))
             s.tags.add("inrel")
         elif a == "tostream" and streams:
             i = rng.choice(streams)
@@ -322,6 +323,26 @@ def c05(tier, rng):
     for k in range(n_cases(tier, 150, 3000)):
         out.append(walk(rng, rng.choice([20, 40, 80] if tier == "quick" else [40, 120, 400]),
                         {"unknown_acks": True, "hold": k % 3 == 0, "fail": 0.2}, "walk%d" % k))
+    acks = {"puback": M.puback, "pubrec": M.pubrec, "pubcomp": M.pubcomp, "suback": lambda pid: M.suback(pid, [0]),
+            "unsuback": lambda pid: M.unsuback(pid, [0])}
+    for kind, right in (("pub1", "puback"), ("pub2", "pubrec"), ("sub", "suback"), ("unsub", "unsuback"), ("pub2b", "pubcomp")):
+        for wrong in acks:
+            if wrong == right:
+                continue
+            s = S()
+            other = s.ping()
+            s.poll(other)
+            i = {"pub1": lambda: s.pub(q=1), "pub2": lambda: s.pub(q=2), "pub2b": lambda: s.pub(q=2), "sub": s.sub, "unsub": s.unsub}[kind]()
+            s.poll(i)
+            pid = s.ops[i]["pid"]
+            if kind == "pub2b":
+                s.deliver(M.pubrec(pid)), s.poll(i)
+            s.deliver(acks[wrong](pid)), s.poll(i), s.poll(other)
+            s.deliver(acks[right](pid)), s.poll(i)
+            if kind == "pub2":
+                s.poll(i), s.deliver(M.pubcomp(pid)), s.poll(i)
+            s.deliver(M.pingresp()), s.poll(other)
+            out.append(case("crosstype-%s-%s" % (kind, wrong), s.script(), ["crosstype"]))
     return out
 
 
@@ -362,6 +383,32 @@ def c06(tier, rng):
         out.append(walk(rng, rng.choice([20, 50]) if tier == "quick" else rng.choice([50, 200]),
                         {"kinds": ["pub0", "pub1", "pub2", "pub2", "ping"], "fail": 0.3, "rmax": rng.choice([None, 2, 5])},
                         "walk%d" % k))
+    # a congested socket: the transport accepts only part of a packet, stays Pending, and later drains (the model has no
+    # such writer: implementation-only cases, judged by the oracle)
+    for q in (0, 1, 2):
+        for accept in (0, 1, 3, 8):
+            s = S()
+            s.ev("wblock %d" % accept)
+            a = s.pub(q=q, payload=b"blocked")
+            s.poll(a), s.poll(a)
+            b = s.pub(q=0, payload=b"second")
+            s.poll(b), s.poll(b)
+            s.ev("wunblock")
+            s.poll(a), s.poll(b)
+            if q == 1:
+                s.deliver(M.puback(1)), s.poll(a)
+            if q == 2:
+                s.deliver(M.pubrec(1)), s.poll(a), s.deliver(M.pubcomp(1)), s.poll(a)
+            c6 = case("blocked-q%d-%d" % (q, accept), s.script(), ["blocked-writer"])
+            c6["model"] = False
+            out.append(c6)
+    s = S()
+    s.ev("wblock 2")
+    d = s.disc("r=4")
+    s.poll(d), s.poll(d), s.ev("wunblock"), s.poll(d)
+    c6 = case("blocked-disc", s.script(), ["blocked-writer"])
+    c6["model"] = False
+    out.append(c6)
     return out
 
 
@@ -414,6 +461,35 @@ def c07(tier, rng):
     for _ in range(5):
         s.ev("pollstream %d" % b)
     out.append(case("isolation", s.script(), ["isolation"]))
+    s = S()
+    a = s.sub(b"a")
+    s.poll(a), s.deliver(M.suback(1)), s.poll(a), s.ev("tostream %d" % a)
+    for q in (0, 1, 2):
+        s.deliver(M.publish(b"a", b"", q, 30 + q if q else None, ps=[(11, 1)]))
+        s.deliver(M.publish(b"a", b"x%d" % q, q, 40 + q if q else None, retain=1, ps=[(11, 1), (1, 1)]))
+    for _ in range(7):
+        s.ev("pollstream %d" % a)
+    out.append(case("empty-payload", s.script(), ["empty-payload"]))
+    # a consumer that is late: well over a thousand messages wait in the stream (before SUBACK, before stream(), after)
+    N = 1300 if tier == "quick" else 3000
+    s = S()
+    a, b = s.sub(b"a"), s.sub(b"b")
+    s.poll(a), s.poll(b)
+    for k in range(N):
+        if k == 11:
+            s.deliver(M.suback(1)), s.deliver(M.suback(2)), s.poll(a), s.poll(b)
+        if k == 40:
+            s.ev("tostream %d" % b)
+        s.deliver(M.publish(b"a", b"n%d" % k, 0, None, ps=[(11, 1)]))
+        if k % 100 == 0:
+            s.deliver(M.publish(b"b", b"b%d" % k, 0, None, ps=[(11, 2)]))
+            if k >= 100:
+                s.ev("pollstream %d" % b)
+    s.ev("tostream %d" % a)
+    for k in range(N + 1):
+        s.ev("pollstream %d" % a)
+    s.deliver(M.publish(b"a", b"fresh", 1, 9, ps=[(11, 1)])), s.ev("pollstream %d" % a), s.ev("pollstream %d" % a)
+    out.append(case("late-consumer", s.script(), ["backlog"]))
     for k in range(n_cases(tier, 120, 2500)):
         out.append(walk(rng, rng.choice([30, 60]) if tier == "quick" else rng.choice([60, 250]),
                         {"kinds": ["sub", "sub", "unsub", "pub1", "ping"], "streams": True, "drops": k % 2 == 0},
@@ -452,9 +528,17 @@ def c08(tier, rng):
                     s.deliver(M.publish(b"t", b"x", e[1], pid if e[1] else None, dup=pid % 2,
                                         ps=[(11, e[2])] if e[2] else []))
                 else:
-                    s.deliver(M.pubrel(pid))
+                    s.deliver(M.pubrel(pid, *[(0, (), "auto"), (146, (), "short3"), (146, [(31, b"lost")], "long")][n % 3]))
             out.append(case("seq%d" % n, s.script(), ["seq%d" % L]))
             n += 1
+    for pid in (7, 8):
+        for r, ps, form in ((0, (), "auto"), (0, (), "short3"), (146, (), "short3"), (146, [(31, b"lost")], "long"), (0, [(38, (b"k", b"v"))], "long")):
+            s = S()
+            if pid == 7:
+                s.deliver(M.publish(b"t", b"", 2, 7))
+            s.deliver(M.pubrel(pid, r, ps, form))
+            s.deliver(M.publish(b"t", b"", 1, 9, dup=1)), s.deliver(M.publish(b"t", b"q0"))
+            out.append(case("pubrel-%d-%d-%s" % (pid, r, form), s.script(), ["pubrel-forms"]))
     for k in range(n_cases(tier, 60, 1500)):
         out.append(walk(rng, 40 if tier == "quick" else 150,
                         {"kinds": ["sub", "pub1", "ping"], "streams": True, "inbound": True, "drops": True,
@@ -491,6 +575,32 @@ def c09(tier, rng):
                 s.ev("pollstream %d" % a)
             out.append(case("seq%d" % n, s.script(), ["seq%d" % L]))
             n += 1
+    for r, ps, form in ((146, (), "short3"), (146, [(31, b"lost")], "long"), (0, (), "short3")):
+        s = S()
+        a = s.sub(b"a")
+        s.poll(a), s.deliver(M.suback(1)), s.poll(a), s.ev("tostream %d" % a)
+        s.deliver(M.publish(b"t", b"first", 2, 5, ps=[(11, 1)])), s.deliver(M.publish(b"t", b"first", 2, 5, dup=1, ps=[(11, 1)]))
+        s.deliver(M.pubrel(5, r, ps, form))
+        s.deliver(M.publish(b"t", b"second", 2, 5, ps=[(11, 1)])), s.deliver(M.publish(b"t", b"second", 2, 5, dup=1, ps=[(11, 1)]))
+        for _ in range(4):
+            s.ev("pollstream %d" % a)
+        out.append(case("release-%d-%s" % (r, form), s.script(), ["pubrel-forms"]))
+    for fail in (128, 151, 0):
+        # both directions use identifier 2 at the same time (the two sides number independently)
+        s = S()
+        a = s.sub(b"a")
+        s.poll(a), s.deliver(M.suback(1)), s.poll(a), s.ev("tostream %d" % a)
+        s.deliver(M.publish(b"t", b"in-first", 2, 2, ps=[(11, 1)]))
+        o = s.pub(q=2, payload=b"out")
+        s.poll(o)                                             # outbound identifier 2
+        s.deliver(M.pubrec(2, fail)), s.poll(o)
+        s.deliver(M.publish(b"t", b"in-first", 2, 2, dup=1, ps=[(11, 1)]))
+        if not fail:
+            s.deliver(M.pubcomp(2)), s.poll(o)
+        s.deliver(M.pubrel(2)), s.deliver(M.publish(b"t", b"in-second", 2, 2, ps=[(11, 1)]))
+        for _ in range(4):
+            s.ev("pollstream %d" % a)
+        out.append(case("both-directions-%d" % fail, s.script(), ["both-directions"]))
     for k in range(n_cases(tier, 40, 1000)):
         out.append(walk(rng, 50 if tier == "quick" else 200,
                         {"kinds": ["sub", "ping"], "streams": True, "inbound": True, "redeliver": True},
@@ -530,6 +640,20 @@ def c10(tier, rng):
             for i in more:
                 s.poll(i)                          # one accepted, one refused
             out.append(case("R%d-%s%s" % (R, comp, "-auth" if via else ""), s.script(), ["R%d" % R, comp] + (["via-auth"] if via else [])))
+    for R in (1, 3):
+        for q in (1, 2):
+            s = S(connack_props=[(33, R), (39, 32)])
+            big = [s.pub(q=q, payload=b"x" * 40) for _ in range(2)]
+            for i in big:
+                s.poll(i)
+            for i in big:
+                s.poll(i)
+            ok = [s.pub(q=1) for _ in range(R + 1)]
+            for i in ok:
+                s.poll(i)
+            for i in ok:
+                s.poll(i)                       # R accepted, one refused
+            out.append(case("oversized-R%d-q%d" % (R, q), s.script(), ["R%d" % R, "oversized"]))
     # default R = 65535: no refusal after many publishes
     s = S()
     s.ev("spin 300 1000 pub1 0")
@@ -591,6 +715,33 @@ def c11(tier, rng):
         s.ev("spin 40 139000 sub 1")
         s.ev("spin 10 140000 pub1 1")
         out.append(case("wrap-twice", s.script(), ["wrap2"], release=False))
+    # refusals (Receive Maximum reached, packet too large) seen by the publisher only at its next poll, with other
+    # operations allocating identifiers from other clones in between
+    for R, mp in ((1, None), (2, None), (3, 40), (1, 40)):
+        s = S(connack_props=[(33, R)] + ([(39, mp)] if mp else []))
+        s.ev("clone 0 1")
+        held = [s.pub(q=1 + k % 2, handle=k % 2) for k in range(R)]
+        for i in held:
+            s.poll(i)
+        refused = s.pub(q=1, payload=b"y" * (60 if mp else 1))
+        s.poll(refused)
+        c1, c2 = s.sub(b"s", handle=1), s.unsub(b"u")
+        s.poll(c1)
+        s.poll(refused)                                        # the refusal is delivered now
+        s.poll(c2)
+        d1, d2 = s.pub(q=2, handle=1), s.sub(b"t")
+        s.poll(d1), s.poll(d2), s.poll(d1)
+        out.append(case("refused-R%d-%s" % (R, mp), s.script(), ["refused"]))
+    for k in range(n_cases(tier, 30, 600)):
+        out.append(walk(rng, rng.choice([40, 80]) if tier == "quick" else rng.choice([80, 300]),
+                        {"kinds": ["pub1", "pub2", "sub", "unsub", "pub1"], "rmax": rng.choice([1, 2, 3]), "fail": 0.2,
+                         "sizes": [1, 1, 30], "maxpkt": rng.choice([None, 20, 28])}, "refusalwalk%d" % k))
+    # the first 16400 subscribe() calls: subscription identifiers across the 1|2 and 2|3 byte boundaries of the variable
+    # byte integer
+    s = S()
+    for j in range(8):
+        s.ev("spin 2050 %d sub 1" % (100000 + 3000 * j))
+    out.append(case("subids-16400", s.script(), ["subid-boundary"], release=False))
     # mixed kinds and clones, short
     for k in range(n_cases(tier, 20, 200)):
         s = S()
@@ -649,6 +800,7 @@ def c12(tier, rng):
                 out.append(case("c%d" % n, s.script(), [kind, "M=L%+d" % (Mx - L) if Mx and abs(Mx - L) <= 1 else "M=%s" % Mx],
                                 L=L, M=Mx, kind=kind))
                 n += 1
+    out += c12_extra()
     return out
 
 
@@ -657,6 +809,32 @@ DISC_R = [0, 4, 128, 129, 130, 131, 135, 137, 139, 141, 142, 143, 144, 147, 148,
           155, 156, 157, 158, 159, 160, 161, 162]
 CONNACK_R = [0, 128, 129, 130, 131, 132, 133, 134, 135, 136, 137, 138, 140, 144, 149, 151, 153, 154, 155, 156,
              157, 159]
+
+
+def c12_extra():
+    out = []
+    L = len(M.publish(b"t", b"p" * 20))                # QoS 0: 2 + 3 + 1 + 20 = 26 bytes
+    for first, second in ((L + 10, L - 1), (L - 1, L), (None, L - 1), (L - 1, None), (L, L + 5)):
+        s = S(connack_props=[(39, first)] if first else [])
+        a = s.pub(q=0, payload=b"p" * 20)
+        s.poll(a), s.poll(a)
+        s.ev("eof")
+        s.ev("reconnect"), s.ev("connect"), s.deliver(M.connack(ps=[(39, second)] if second else [])), s.ev("run")
+        b = s.pub(q=0, payload=b"p" * 20)
+        s.poll(b), s.poll(b)
+        g = s.ping()
+        s.poll(g), s.deliver(M.pingresp()), s.poll(g)
+        out.append(case("reconnect-%s-%s" % (first, second), s.script(), ["reconnect"]))
+    # the limit the CLIENT announces in its CONNECT says nothing about what it may send
+    for own in (16, 5):
+        s = S(connect_opts="mps=%d" % own)
+        ops = [s.pub(q=0, payload=b"p" * 20), s.sub(b"filter/one"), s.unsub(b"filter/one"), s.ping(), s.disc("r=4 rs=%s" % hx(b"bye for now"))]
+        for i in ops:
+            s.poll(i)
+        for i in ops:
+            s.poll(i)
+        out.append(case("own-limit-%d" % own, s.script(), ["own-limit"]))
+    return out
 
 
 def session_states():
@@ -691,6 +869,9 @@ def c13(tier, rng):
                         ["connect"]))
     out.append(case("connect-auth", "connect am=6d ad=01 ; deliver %s ; auth r=24 am=6d ad=02 ; deliver %s ; run ; eof"
                     % (hx(M.auth(24, [(21, b"m"), (22, b"\x09")])), hx(M.connack())), ["auth"]))
+    for r in (135, 157):
+        for sia in (0, 1):
+            out.append(case("connack-refusal-r%d-sia%d" % (r, sia), "connect ; deliver %s ; run" % hx(M.connack(0, r, [(41, sia), (31, b"no")])), ["connect"]))
     out.append(case("connect-eof", "connect ; eof", ["connect-eof"]))
     out.append(case("connect-rerr", "connect ; rerr", ["connect-eof"]))
     out.append(case("connect-werr", "werr 5 ; connect", ["connect-werr"]))
@@ -742,6 +923,11 @@ def c13(tier, rng):
             s = mk()
             s.ev("deliver " + bad)
             out.append(case("undecodable-%s-%s" % (name, bad), s.script(), ["undecodable"]))
+        for glue in (M.puback(77), M.publish(b"z", b"zz"), M.pingresp()):
+            for d in (M.disconnect(0), M.disconnect(139, form="short1"), M.disconnect(0, [(31, b"bye")], "long")):
+                s = mk()
+                s.deliver(glue + d)
+                out.append(case("glued-%s-%s-%s" % (name, hx(glue[:1]), hx(d)), s.script(), ["srvdisc", "glued"]))
         # no cause: run() must not return
         s = mk()
         s.deliver(M.pingresp()), s.deliver(M.puback(77)), s.deliver(M.publish(b"z", b"z"))
@@ -881,6 +1067,19 @@ def c15(tier, rng):
                 s.deliver(M.pingresp()), s.poll(bp), s.poll(pg)
             out.append(case("cancel-%s-%s%s" % (kind, point, "-between" if between else ""), s.script(), [kind, point]))
             n += 1
+    for q in (1, 2):
+        for why in ("quota", "size"):
+            s = S(connack_props=[(33, 1), (39, 30)])
+            first = s.pub(q=1)
+            s.poll(first)
+            doomed = s.pub(q=q, payload=b"z" * (40 if why == "size" else 1))
+            live = s.pub(q=1, payload=b"live")
+            s.ev("hold"), s.poll(doomed), s.ev("dropop %d" % doomed), s.poll(live), s.ev("release")
+            s.poll(live)
+            s.deliver(M.puback(1)), s.poll(first)
+            nxt = s.pub(q=1)
+            s.poll(nxt), s.deliver(M.puback(s.ops[nxt]["pid"])), s.poll(nxt)
+            out.append(case("cancel-queued-refused-q%d-%s" % (q, why), s.script(), ["queued", "refused"]))
     # dropping a stream
     s = S()
     a, b = s.sub(b"a"), s.sub(b"b")
@@ -1026,4 +1225,36 @@ def c17(tier, rng):
             for i in (a, b, c3):
                 s.poll(i)
             out.append(case("mixed%d-%s" % (variant, label), s.script(), [label, "mixed", "twice" if variant >= 3 else "once"]))
+    for sei1, sei2, label in ((1000, None, "finite-then-omitted"), (4294967295, None, "never-then-omitted"), (None, 1000, "omitted-then-finite"),
+                              (1000, 0, "finite-then-zero"), (5, 100000, "short-then-long")):
+        s = S(connect_opts=("sei=%d" % sei1) if sei1 is not None else "")
+        a, b = s.pub(q=1, payload=b"A"), s.pub(q=2, payload=b"B")
+        s.poll(a), s.poll(b), s.deliver(M.pubrec(2)), s.poll(b)
+        s.ev("markdisc 50"), s.ev("reconnect")
+        s.ev(("connect sei=%d" % sei2) if sei2 is not None else "connect")
+        s.deliver(M.connack(1)), s.ev("run")
+        s.poll(a), s.poll(b)
+        s.deliver(M.puback(1)), s.deliver(M.pubcomp(2)), s.poll(a), s.poll(b)
+        out.append(case("expiry-%s" % label, s.script(), ["expiry-change"]))
+    for variant in range(4):
+        s = S(connect_opts="sei=1000")
+        a, b, c3 = s.pub(q=1, payload=b"A"), s.pub(q=2, payload=b"B"), s.pub(q=1, payload=b"C")
+        for i in (a, b, c3):
+            s.poll(i)
+        s.deliver(M.pubrec(2)), s.poll(b)
+        s.ev("markdisc 10"), resume(s, 1000)
+        # acknowledgements arrive on the resumed connection, nothing new is in flight
+        if variant in (0, 2):
+            s.deliver(M.puback(1)), s.poll(a)
+        if variant in (1, 2):
+            s.deliver(M.pubcomp(2)), s.poll(b)
+        if variant == 3:
+            s.deliver(M.puback(3)), s.poll(c3), s.deliver(M.puback(1)), s.poll(a)
+        s.ev("markdisc 10"), resume(s, 1000)
+        for i in (a, b, c3):
+            s.poll(i)
+        s.deliver(M.puback(1)), s.deliver(M.pubcomp(2)), s.deliver(M.puback(3))
+        for i in (a, b, c3):
+            s.poll(i)
+        out.append(case("ack-between-resumes-%d" % variant, s.script(), ["twice", "acked-between"]))
     return out
